@@ -81,7 +81,14 @@ where
     F: Float,
 {
     let this_in = !event.is_in_out();
-    let that_in = !event.is_other_in_out();
+    // For a coincident edge pair the twin edge changes the other operand as well, so the
+    // state of the other operand above the pair follows from the edge type, not from the
+    // state below the pair.
+    let that_in = match event.get_edge_type() {
+        EdgeType::SameTransition => this_in,
+        EdgeType::DifferentTransition => !this_in,
+        _ => !event.is_other_in_out(),
+    };
     let is_in = match operation {
         Operation::Intersection => this_in && that_in,
         Operation::Union => this_in || that_in,
